@@ -381,6 +381,38 @@ pub fn generate(g: &mut Gen, thorough: bool) {
             g.push(super::op_line("default", &res, &[], def, "both", "F", &data), "witness-modifier-only-steps", true);
         }
     }
+    // an inverted invocation is the inverse of the expansion - and refused where the expansion has no inverse (a user's
+    // operator without one, here)
+    {
+        let res = vec![
+            ("o:w".to_string(), "oneway3".to_string()),
+            ("o:deep".to_string(), "o:w".to_string()),
+            ("o:arg".to_string(), "oneway3 k=$k(2)".to_string()),
+            ("o:ok".to_string(), "add2".to_string()),
+        ];
+        let users = vec![("add2".to_string(), "u:add2".to_string()), ("oneway3".to_string(), "u:oneway3".to_string())];
+        let data = super::probe_data(2);
+        for (a, b) in [
+            ("o:w inv", "oneway3 inv"), ("inv o:w", "oneway3 inv"), ("o:deep inv", "oneway3 inv"), ("addone | o:w inv", "addone | oneway3 inv"), ("o:arg inv k=5", "oneway3 k=5 inv"),
+            ("o:w", "oneway3"), ("o:ok inv", "add2 inv"), ("addone | o:deep", "addone | oneway3"), ("o:w inv inv", "oneway3 inv inv"),
+        ] {
+            let mut f = vec!["S_C04E".to_string(), "default".to_string(), res.len().to_string()];
+            for (n, body) in &res {
+                f.push(crate::wire::escape(n));
+                f.push(crate::wire::escape(body));
+            }
+            f.push(users.len().to_string());
+            for (n, t) in &users {
+                f.push(crate::wire::escape(n));
+                f.push(t.clone());
+            }
+            f.push(crate::wire::escape(a));
+            f.push(crate::wire::escape(b));
+            f.push(data.clone());
+            g.push(f.join("\t"), "oracle-invocation-and-expansion-refused-alike", true);
+            g.push(super::op_line("default", &res, &users, a, "both", "F", &data), "witness-invocation-and-expansion-refused-alike", true);
+        }
+    }
     // a macro that invokes itself from several steps of its body: refused as fast as one that does so once (the first
     // step that cannot be instantiated ends the instantiation of the pipeline)
     {
